@@ -53,17 +53,29 @@ def _worker_init():
 def pytype_pyi(src, skip_repeat_calls=True, empty_to_any=False):
   """(pyi text, None) or (None, reason).  The two switches are root-cause probes used to fingerprint a violation:
   skip_repeat_calls=False turns pytype's call cache off; empty_to_any=True replaces a call result that is the
-  empty value (`nothing`, e.g. sum([])) by Any."""
+  empty value (`nothing`, e.g. sum([]), [] + x) by Any."""
   from pytype import config, io  # pylint: disable=import-outside-toplevel
+  from pytype import vm_utils  # pylint: disable=import-outside-toplevel
   from pytype.abstract import function  # pylint: disable=import-outside-toplevel
   orig = function.call_function
+  orig_binop = vm_utils.call_binary_operator
   if empty_to_any:
+    def is_empty(var):
+      return not var.bindings or any(type(d).__name__ == "Empty" for d in var.data)
+
     def patched(ctx, node, func_var, args, *a, **k):
       node2, ret = orig(ctx, node, func_var, args, *a, **k)
-      if not ret.bindings or any(type(d).__name__ == "Empty" for d in ret.data):
+      if is_empty(ret):
         ret = ctx.new_unsolvable(node2)
       return node2, ret
+
+    def patched_binop(state, name, x, y, report_errors, ctx):
+      state2, ret = orig_binop(state, name, x, y, report_errors, ctx)
+      if is_empty(ret):
+        ret = ctx.new_unsolvable(state2.node)
+      return state2, ret
     function.call_function = patched
+    vm_utils.call_binary_operator = patched_binop
   try:
     opts = config.Options.create(python_version=(3, 12))
     if not skip_repeat_calls:
@@ -74,6 +86,7 @@ def pytype_pyi(src, skip_repeat_calls=True, empty_to_any=False):
     return None, type(e).__name__ + ": " + str(e)[:200]
   finally:
     function.call_function = orig
+    vm_utils.call_binary_operator = orig_binop
 
 
 def _pyi_task(src):
@@ -345,9 +358,10 @@ def classify(src, calls, v0, known):
     return fp, None                      # already reported / listed: no need to minimise again
   if fp is None and _classified.get("(unclassified, minimised)", 0) >= MAX_UNCLASSIFIED:
     return "(unclassified, not minimised: budget of %d minimisations used)" % MAX_UNCLASSIFIED, None
-  m = E2E.minimise(src, still, E2E.Budget(150, 600.0))
-  m = E2E.simplify_exprs(m, still, E2E.Budget(80, 300.0))
-  m = E2E.minimise(m, still, E2E.Budget(30, 120.0))
+  # budgets are numbers of pytype runs (deterministic); the time caps only guard against a stuck machine
+  m = E2E.minimise(src, still, E2E.Budget(150, 3600.0))
+  m = E2E.simplify_exprs(m, still, E2E.Budget(80, 1800.0))
+  m = E2E.minimise(m, still, E2E.Budget(30, 900.0))
   if fp is None:
     _classified["(unclassified, minimised)"] = _classified.get("(unclassified, minimised)", 0) + 1
     feats = E2E.features(m)
@@ -357,7 +371,7 @@ def classify(src, calls, v0, known):
         if _cures_builtin(m, nm, still):
           return "builtin-result:" + nm, m
     # fallback: the violated check + the distinctive constructs left in the minimised program
-    core = [f for f in feats if f in CORE_FEATURES]
+    core = [f for f in feats if f in CORE_FEATURES] or feats      # never an empty (catch-all) fingerprint
     fp = "unclassified:" + v0["kind"] + ":" + "+".join(core)
   return fp, m
 
@@ -404,6 +418,7 @@ def _cures_builtin(src, name, still):
 
 
 _classified = {}
+_examples = {}
 
 
 MAX_UNCLASSIFIED = 10
@@ -421,14 +436,16 @@ def report_violation(res, origin, src, calls, v0, pool):
   _classified[fp] = _classified.get(fp, 0) + 1
   if not first or fp.startswith("(unclassified, not minimised"):
     return
-  if fp not in res.known and sum(1 for v in res.violations if v["found_input"]) >= 3:
-    return
   m = m or src
+  if fp not in res.known and sum(1 for v in res.violations if v["found_input"]) >= 3:
+    _examples[fp] = {"src": m[:1500], "violation": v0, "note": "not reported: 3 unlisted violations already reported"}
+    return
   pyi, _ = pytype_pyi(m)
   try:
     vv = [v for v in E2E.check_program(m, calls, pyi)[1] if v["kind"] == v0["kind"]]
   except Exception:  # pylint: disable=broad-except
     vv = [v0]
+  _examples[fp] = {"src": m[:1500], "violation": (vv or [v0])[0]}
   res.violation(fp, "run-time value outside its inferred type (%s %s: %s does not admit %s)" %
                 (v0["kind"], v0["where"], v0["type"], v0["value"][:80]),
                 {"kind": origin, "src": m, "calls": calls, "original_src": src, "violation": (vv or [v0])[0],
@@ -477,7 +494,7 @@ def e2e_part(res, pool, r, n_gen, corpus):
       report_violation(res, "e2e", src, calls, viol[0], pool)
   res.extra["e2e"] = {"generated": len(items), "stats": dict(st), "feature_histogram": dict(feats),
                       "wall_s": round(time.time() - t0, 1),
-                      "fingerprints_seen": dict(_classified)}
+                      "fingerprints_seen": dict(_classified), "first_example_per_fingerprint": dict(_examples)}
   # the e2e leg is search: it creates no proof obligation beyond "the oracle ran on a reasonable sample"
   res.obligation("e2e-oracle-ran", st["programs"] >= max(1, len(items) // 4) and st["checks"] > 0,
                  "programs=%d checks=%d" % (st["programs"], st["checks"]))
